@@ -412,6 +412,9 @@ func (w *balWorld) addrPool(s *balState) [][]byte {
 		res = append(res, u.ScriptHash().BytesBE())
 	}
 	res = append(res, w.actor.BytesBE())
+	// the Balance contract's own address: an account like any other, which nobody can witness
+	w.names[w.bal] = "balance-contract"
+	res = append(res, w.bal.BytesBE())
 	e := chainkit.NamedUser("bal-empty").ScriptHash()
 	w.names[e] = "empty"
 	res = append(res, e.BytesBE())
@@ -435,8 +438,20 @@ func (w *balWorld) addrPool(s *balState) [][]byte {
 	return res
 }
 
-// amountFor draws an amount class relative to balance b.
+// amountFor draws an amount class relative to balance b (clamped to what a VM integer can hold).
 func amountFor(rt *rapid.T, b *big.Int, label string) (*big.Int, string) {
+	a, c := amountFor0(rt, b, label)
+	lim := new(big.Int).Sub(pow2(255), bi(1))
+	if a.Cmp(lim) > 0 {
+		a = lim
+	}
+	if a.Cmp(new(big.Int).Neg(lim)) < 0 {
+		a = new(big.Int).Neg(lim)
+	}
+	return a, c
+}
+
+func amountFor0(rt *rapid.T, b *big.Int, label string) (*big.Int, string) {
 	classes := []string{"neg1", "negBig", "zero", "one", "eq", "eq-1", "eq+1", "over", "2^63", "2^255-1", "small", "-2^63"}
 	c := rapid.SampledFrom(classes).Draw(rt, label)
 	switch c {
